@@ -447,7 +447,7 @@ func (u *LUnit) Spec(it ast.Type, t gschema.Term, v any, depth int) (spec any, u
 		if ok && obj.Type.IsRef() { // alias of a struct
 			return u.Spec(obj.Type, t, v, depth+1)
 		}
-		b, ok := u.IR.BuilderIn(u.C.PkgName(), name)
+		b, ok := u.IR.BuilderFor(u.C.PkgName(), name)
 		if !ok {
 			return nil, false, ErrInexpressible{"no builder named " + name}
 		}
